@@ -19,7 +19,8 @@ import xf
 PID = "C12"
 GUARD = "runs_ok: every run of empty rows (columns) is at most 60 (20); no_dups: no duplicate header"
 MODELLED = ("get_excel_column_headers, get_excel_rows, trim_trailing_empty, is_empty, xlsx_value_to_str (coq/Model/Backends.v). "
-            "openpyxl/xlrd deliver the grid; md/csv parsing, file-type dispatch and delivery channels are decided on the "
+            "The Markdown reader (_md_table_to_ss_structure, _md_strp_cell, the MD_ patterns) is modelled in coq/Model/Md.v (patterns and function texts pinned). "
+            "openpyxl/xlrd deliver the grid; csv parsing, file-type dispatch and delivery channels are decided on the "
             "implementation by the cross-container oracle (testing); .xls is exercised through duck-typed xlrd sheets injected at "
             "xlrd_open (no .xls writer exists in this sandbox)")
 ASSUMPTIONS = ["str(float) is CPython's shortest round-trip repr (oracle, not modelled)",
@@ -167,9 +168,49 @@ class CellOp(Op):
         return cases
 
 
+MD_CELLS = ["type", "name", "label", "text", "q1", "A b", "", " ", "  ", "a \\| b", "x#y", "# c", "#", "é", "a\\\\", "\\|", "-", "--", "a-b", "\u00a0", "\u2003x", "\tt", "a\\", "1", "survey", "choices", "Survey", "`"]
+
+
+def md_line(rng):
+    k = rng.random()
+    if k < 0.08:
+        return rng.choice(["", " ", "# comment", "  # c | d", "text only", "|", "||", "| |", "|-|", "|---|---|", "| --- | --- |", " |-|-| # x"])
+    if k < 0.3:
+        return rng.choice(["", " ", "\t"]) + "| " + rng.choice(["survey", "choices", "settings", "Survey", "s2", "x y"]) + rng.choice([" |", " | ", " |  # c", "|", " | | |", " | a |"])
+    cells = [rng.choice(MD_CELLS) for _ in range(rng.randint(0, 5))]
+    return (rng.choice(["", " ", "  "]) + "|" + rng.choice(["", " ", "  "]) + "|" + "|".join(rng.choice(["", " "]) + c + rng.choice(["", " "]) for c in cells)
+            + rng.choice(["|", "| ", "|  # tail", "", "| x"]))
+
+
+class MdOp(Op):
+    """_md_table_to_ss_structure (comments, separators, escaped pipes, ragged rows, text after the last pipe) against Model/Md.v"""
+    name = "B.md_structure"
+    imports = ["PX.Model.Md"]
+    fn = "show_md"
+    in_ty = "list N"
+    n_quick, n_thorough = 500, 5000
+
+    def generate(self, rng, n):
+        from pyxform.xls2json_backends import _md_table_to_ss_structure
+
+        def show(res):
+            out = ""
+            for k, v in res.items():
+                out += ("K" + k if k is not False else "F") + "\x02"
+                out += "F" if v is False else "R" + "".join("\x01".join(("S" + c) if c is not None else "N" for c in r) + "\x03" for r in v)
+                out += "\x04"
+            return out
+        cases = []
+        for _ in range(n):
+            text = rng.choice(["\n", "\n", "\r\n"]).join(md_line(rng) for _ in range(rng.randint(0, 7)))
+            res = _md_table_to_ss_structure(text)
+            cases.append({"coq": cstr(text), "expected": show(res), "desc": {"md": text}, "class": f"{min(len(res), 3)} sheets", "nontrivial": any(v for v in res.values())})
+        return cases
+
+
 def ops(tier):
     check_space_table()
-    return [HeadersOp(), RowsOp(), CellOp()]
+    return [HeadersOp(), RowsOp(), CellOp(), MdOp()]
 
 
 # ---- direct oracle: the same workbook through every container and channel ----------------------------
@@ -322,6 +363,18 @@ def _check(args):
         return {"i": i, "skip": "crash (C17)"}
     md = forms.as_md(form) if not multiline else ""
     csvs = forms.as_csv(form)
+    if i % 5 == 4 and len(form["survey"]) >= 1 and not multiline:
+        # a stray cell to the right of the last header cell (first data row of the survey sheet): every reader ignores it
+        ml = md.split("\n")
+        if len(ml) > 2 and ml[2].startswith("| | "):
+            ml[2] = ml[2] + " stray |"
+            md = "\n".join(ml)
+        cl = csvs.split("\n")
+        if len(cl) > 2:
+            cl[2] = cl[2] + ',"stray"'
+            csvs = "\n".join(cl)
+        if len(gr.get("survey", [])) > 1:
+            gr["survey"][1] = list(gr["survey"][1]) + [None] * (len(gr["survey"][0]) - len(gr["survey"][1])) + ["stray"]
     xb = xlsx_bytes(gr, typed_cells)
     variants = []
     tmpd = tempfile.mkdtemp(prefix="pxv-c12-")
